@@ -148,7 +148,7 @@ def check_C13(chk, tier, seed):
                        "timeouts: 2.5 s to connect, 2.5 s for the answer, on loopback"]
 
 
-FAULTS = ["announce-leave", "malformed", "oversized", "zero-length", "stall-midframe", "stall-setup", "garbage-setup", "reset", "reset-midframe", "handler-panic", "vanish-before-answer"]
+FAULTS = ["announce-leave", "malformed", "oversized", "zero-length", "stall-midframe", "stall-setup", "garbage-setup", "reset", "reset-midframe", "handler-panic", "handler-panic-sync", "vanish-before-answer"]
 
 
 def check_C10(chk, tier, seed):
@@ -189,7 +189,7 @@ def check_C10(chk, tier, seed):
         if i % max(1, len(cases) // 6) == 0:
             chk.sample(dict(case=c, impl=im, P=ok))
     chk.rule = ("every fault kind (malformed frame, oversized frame, zero length, stall in mid-frame, stall before connection setup incl. a TLS handshake never started, "
-                "garbage at setup, reset, reset in mid-frame, handler panic, a peer that resets the connection while the handler is still preparing its answer so that the write fails) alone with 3 well-behaved raw-socket clients, for plain TCP and TLS listeners, plus random "
+                "garbage at setup, reset, reset in mid-frame, handler panic inside the handler's future and in its synchronous part, a peer that resets the connection while the handler is still preparing its answer so that the write fails) alone with 3 well-behaved raw-socket clients, for plain TCP and TLS listeners, plus random "
                 "combinations of 1-3 faulty peers with 1-4 good clients; 5 and 9 simultaneous peers stuck in connection setup; 72 peers in a row that announce a 1 MiB frame and leave in the middle of it; half of the good clients are open before the faults are injected, half open afterwards; "
                 "multi-threaded runtime, real time; every answer compared octet for octet with the handler's answer to that client's own request (a misrouted answer "
                 "carries another client's Session-Id); deadline 3 s per step")
